@@ -1,0 +1,22 @@
+// Copyright (C) The Arvados Authors. All rights reserved.
+//
+// SPDX-License-Identifier: Apache-2.0
+
+//go:build verif
+// +build verif
+
+// Machine-checked contracts (read by /verif/bin/govc; never compiled into
+// normal builds).  See /verif/DESIGN.md section 3 for the language.
+
+package auth
+
+// From the statement of property C19: a v2 token is "v2/<uuid>/<secret>[/...]";
+// a secret that is a 40-hex salt is already salted.
+//@ spec macro wellFormed(token) bool = splitcount(token, "/") >= 3 && splitpart(token, "/", 0) == "v2"
+//@ spec macro isSalt(s) bool = matches(s, `[0-9a-f]{40}`)
+
+//@ func SaltToken property C19
+//@   ensures !wellFormed(token) ==> result == "" && (matches(token, `[0-9a-z]{41,}`) ==> result1 == ErrObsoleteToken) && (!matches(token, `[0-9a-z]{41,}`) ==> result1 == ErrTokenFormat)
+//@   ensures wellFormed(token) && !isSalt(splitpart(token, "/", 2)) ==> result1 == nil && result == "v2/" + splitpart(token, "/", 1) + "/" + hmacsha1hex(splitpart(token, "/", 2), remote)
+//@   ensures wellFormed(token) && isSalt(splitpart(token, "/", 2)) && strings.HasPrefix(splitpart(token, "/", 1), remote) ==> result1 == nil && result == token
+//@   ensures wellFormed(token) && isSalt(splitpart(token, "/", 2)) && !strings.HasPrefix(splitpart(token, "/", 1), remote) ==> result1 == ErrSalted && result == ""
